@@ -1397,3 +1397,79 @@ axiom('gnfadfa', 'lemma', 'gnfa-of-dfa-lang', ForAll([_D, _Lb, _Qs, _qs, _qa, _w
 
 @spec('gnfa_of_dfa')
 def s_gnfa_of_dfa(ev, D, Ls, Q, qs, qa): return SV(BOOL, gdfa_b(D.z, Ls.z, Q.z, qs.z, qa.z))
+
+
+# ====================================================================== regexp -> NFA (theory thompson): alphabet-free readings of the constructions
+allbut = Function('allbut', Atom, SetA)         # every symbol except e
+axiom('thompson', 'def', 'allbut-def', ForAll([_e, _x], Select(allbut(_e), _x) == (_x != _e)))
+def noeps(e, w):
+    """no letter of w is the symbol e (words are sequences of one-character strings; the epsilon symbol of the NFAs is the empty string)"""
+    return over(allbut(e), w)
+_rx1, _rx2 = Consts('rx1 rx2', Regexp)
+syms = Function('syms', Regexp, SetA)          # the symbols occurring in a regular expression (the library's regexp_symbols)
+axiom('thompson', 'def', 'syms-zero', syms(Regexp.Zero) == EMPTYA)
+axiom('thompson', 'def', 'syms-one', syms(Regexp.One) == EMPTYA)
+axiom('thompson', 'def', 'syms-sym', ForAll([_a], syms(Regexp.Sym(_a)) == single(_a)))
+axiom('thompson', 'def', 'syms-iter', ForAll([_rx1], syms(Regexp.Iter(_rx1)) == syms(_rx1)))
+axiom('thompson', 'def', 'syms-sum', ForAll([_rx1, _rx2], syms(Regexp.Sum(_rx1, _rx2)) == U(syms(_rx1), syms(_rx2))))
+axiom('thompson', 'def', 'syms-concat', ForAll([_rx1, _rx2], syms(Regexp.Concat(_rx1, _rx2)) == U(syms(_rx1), syms(_rx2))))
+axiom('thompson', KA, 'Language.ext: languages with the same words are equal', ForAll([_X, _Y], Implies(ForAll([_w], lmem(_w, _X) == lmem(_w, _Y)), _X == _Y)))
+axiom('thompson', 'lemma', 'over-mono', ForAll([_S, _T, _w], Implies(And(over(_S, _w), _sub(_S, _T)), over(_T, _w))))
+axiom('thompson', 'lemma', 'star-over', ForAll([_X, _S, _w], Implies(And(ForAll([_u], Implies(lmem(_u, _X), over(_S, _u))), lmem(_w, lstar(_X))), over(_S, _w))))
+axiom('thompson', 'lemma', 'L-over-syms', ForAll([_rx1, _w], Implies(lmem(_w, Lof(_rx1)), over(syms(_rx1), _w))))
+def _acc_over():
+    N = SV(REC('NFA'), _N1)
+    return ForAll([_N1, _w], Implies(And(s_nfa_wf(None, N).z, noeps(_eps(N), _w), acc_b(_N1, _w)), over(rec_get(N, 'Sigma').z, _w)))
+axiom('thompson', 'lemma', 'acc-over', _acc_over())
+def _free(Nz): return noeps(_eps(SV(REC('NFA'), Nz)), _w)
+axiom('thompson', 'lemma', 'union-free', ForAll([_N1, _N2, _NR, _w], Implies(And(union_b(_N1, _N2, _NR), s_nfa_wf(None, SV(REC('NFA'), _NR)).z, _free(_N1), _free(_N2)),
+      acc_b(_NR, _w) == Or(acc_b(_N1, _w), acc_b(_N2, _w)))))
+axiom('thompson', 'lemma', 'cat-free', ForAll([_N1, _N2, _NR, _w], Implies(And(cat_b(_N1, _N2, _NR), s_nfa_wf(None, SV(REC('NFA'), _NR)).z, _free(_N1), _free(_N2)),
+      acc_b(_NR, _w) == Exists([_k], And(0 <= _k, _k <= wlen(_w), acc_b(_N1, take(_k, _w)), acc_b(_N2, drop(_k, _w)))))))
+axiom('thompson', 'lemma', 'star-free', ForAll([_N1, _NR, _w], Implies(And(star_b(_N1, _NR), s_nfa_wf(None, SV(REC('NFA'), _NR)).z, _free(_N1)),
+      acc_b(_NR, _w) == lmem(_w, lstar(NL(_N1))))))
+
+
+@spec('noeps')
+def s_noeps(ev, e, w): return SV(BOOL, noeps(e.z, w.z))
+@spec('syms')
+def s_syms(ev, r): return SV(SET(ATOM), syms(r.z))
+
+@spec('eps0')
+def s_eps0(ev): return SV(ATOM, EMPTY_STRING_ATOM)
+def _acc_sigma():
+    Q, S1, S2, F = Consts('Qx S1x S2x Fx', SetA); dl = Const('dlx', sort_of(RECORDS['NFA']['delta'])); q0, e = Consts('q0x ex', Atom)
+    mk = parts(REC('NFA'))[1]
+    return ForAll([Q, S1, S2, dl, q0, F, e, _w], acc_b(mk(Q, S1, dl, q0, F, e), _w) == acc_b(mk(Q, S2, dl, q0, F, e), _w))
+axiom('thompson', 'lemma', 'acc-sigma-irrelevant', _acc_sigma())
+_q1 = Const('q1x', Atom)
+axiom('thompson', 'lemma', 'leaf-one', ForAll([_V, _e, _q, _w], Implies(ForAll([_x, _b, _y], Not(Select(Select(_V, mkKey2(_x, _b)), _y))),
+      Nhat(_V, _e, _q, _w) == If(_w == Word.nil, single(_q), EMPTYA)), patterns=[Nhat(_V, _e, _q, _w)]))
+axiom('thompson', 'lemma', 'leaf-sym', ForAll([_V, _e, _q, _q1, _a, _w], Implies(And(ForAll([_x, _b, _y], Select(Select(_V, mkKey2(_x, _b)), _y) == And(_x == _q, _b == _a, _y == _q1)), _a != _e, _q != _q1),
+      Nhat(_V, _e, _q, _w) == If(_w == Word.nil, single(_q), If(_w == Word.snoc(Word.nil, _a), single(_q1), EMPTYA)))))
+
+
+
+# "N accepts exactly the epsilon-free words of L(r)" under an opaque name, and how the three constructions transport it
+agrees_b = Function('lang_agrees', _NFAs, Regexp, BoolSort())
+def agrees_pred(N, r):
+    u = fresh_z('u', Word); return ForAll([u], Implies(noeps(_eps(N), u), acc_b(N.z, u) == lmem(u, Lof(r))))
+axiom('thompson', 'def', 'lang_agrees-def', ForAll([_N1, _rx1], agrees_b(_N1, _rx1) == agrees_pred(SV(REC('NFA'), _N1), _rx1)))
+def _agrees_sigma():
+    Q, S1, S2, F = Consts('Qx S1x S2x Fx', SetA); dl = Const('dlx', sort_of(RECORDS['NFA']['delta'])); q0, e = Consts('q0x ex', Atom)
+    mk = parts(REC('NFA'))[1]
+    return ForAll([Q, S1, S2, dl, q0, F, e, _rx1], agrees_b(mk(Q, S1, dl, q0, F, e), _rx1) == agrees_b(mk(Q, S2, dl, q0, F, e), _rx1))
+axiom('thompson', 'lemma', 'agrees-sigma-irrelevant', _agrees_sigma())
+def _wfz(Nz): return s_nfa_wf(None, SV(REC('NFA'), Nz)).z
+def _epz(Nz): return _eps(SV(REC('NFA'), Nz))
+axiom('thompson', 'lemma', 'agrees-union', ForAll([_N1, _N2, _NR, _rx1, _rx2], Implies(And(union_b(_N1, _N2, _NR), _wfz(_NR), _epz(_N1) == _epz(_N2), agrees_b(_N1, _rx1), agrees_b(_N2, _rx2)),
+      agrees_b(_NR, Regexp.Sum(_rx1, _rx2)))))
+axiom('thompson', 'lemma', 'agrees-cat', ForAll([_N1, _N2, _NR, _rx1, _rx2], Implies(And(cat_b(_N1, _N2, _NR), _wfz(_NR), _epz(_N1) == _epz(_N2), agrees_b(_N1, _rx1), agrees_b(_N2, _rx2)),
+      agrees_b(_NR, Regexp.Concat(_rx1, _rx2)))))
+axiom('thompson', 'lemma', 'agrees-star', ForAll([_N1, _NR, _rx1], Implies(And(star_b(_N1, _NR), _wfz(_NR), _wfz(_N1), _sub(syms(_rx1), rec_get(SV(REC('NFA'), _N1), 'Sigma').z), agrees_b(_N1, _rx1)),
+      agrees_b(_NR, Regexp.Iter(_rx1)))))
+axiom('thompson', 'lemma', 'agrees-accepts', ForAll([_N1, _rx1, _w], Implies(And(agrees_b(_N1, _rx1), _wfz(_N1), over(rec_get(SV(REC('NFA'), _N1), 'Sigma').z, _w)), acc_b(_N1, _w) == lmem(_w, Lof(_rx1)))))
+
+
+@spec('lang_agrees')
+def s_lang_agrees(ev, N, r): return SV(BOOL, agrees_b(N.z, r.z))
